@@ -3,9 +3,10 @@
    nn_term, nn_loglik, loss, poisson_term, compute_ls, compute_mu, compute_d, initial_value_target are
    regenerated from mellon/util.py, inference.py, parameters.py on every run (gen/AInference.v);
    [lgam] is jax.scipy.special.gammaln, uninterpreted.
-   Partial (kept visible): (i) normalisation of the k-nearest-neighbour Poisson model for k > 1 needs
-   Gamma(k) as an integral, absent from the installed libraries - k = 1 is C03_nn_density_normalised
-   through C03_poisson_k1_is_nn; (ii) "the starting point is the ridge-regression solution": the
+   (i) normalisation of the k-nearest-neighbour Poisson model is proved for every neighbour count
+   (C03_knn_poisson_density_normalised, thm/APoissonNorm.v: antiderivative -exp(-u) sum_{i<=k} u^i/i!, no Gamma
+   integral needed; [lgam] enters only through its value ln k! at the integer count).
+   Partial (kept visible): (ii) "the starting point is the ridge-regression solution": the
    regression target is proved (C03_initial_value_target), the Ridge solver is a library contract
    validated on every run ((L^T L + I) z = L^T target) - C03_ridge_unique_minimiser shows that this contract
    determines the start value: the solution of the normal equations is the one and only minimiser of the ridge
@@ -13,7 +14,7 @@
    KD/Ball-tree contract validated against brute force on every run. *)
 From Coq Require Import Reals List ZArith Lra Lia.
 From Coquelicot Require Import Coquelicot.
-From MellonV Require Import ALists AListsFacts AInference AInferenceThm ANormThm.
+From MellonV Require Import ALists AListsFacts AInference AInferenceThm ANormThm APoissonNorm.
 From MellonV Require RidgeThm.
 Import ListNotations.
 Open Scope R_scope.
@@ -80,6 +81,18 @@ Theorem C03_poisson_k1_is_nn : forall lgam r d l, 0 < r -> 0 < d ->
   nn_term lgam r d l = poisson_term lgam r 1 d l + lgam 1 + ln d - ln r.
 Proof. exact poisson_k1_is_nn. Qed.
 Print Assumptions C03_poisson_k1_is_nn.
+
+(* the (k+1)-th neighbour term is a normalised density of the distance: exp(term) is the density of the log expected
+   count eta, whose Jacobian in r is dims / r *)
+Theorem C03_knn_poisson_density_normalised : forall lgam k dims ld, 0 < dims ->
+  lgam (INR (S k)) = ln (INR (fact k)) ->
+  is_RInt_gen (fun r => exp (poisson_term lgam r (INR (S k)) dims ld) * (dims / r))
+    (at_right 0) (Rbar_locally p_infty) 1.
+Proof. exact poisson_density_normalised. Qed.
+Print Assumptions C03_knn_poisson_density_normalised.
+
+Example C03_knn_lgam_hypothesis_satisfiable : forall k, exists lgam : R -> R, lgam (INR (S k)) = ln (INR (fact k)).
+Proof. intros k. exists (fun _ => ln (INR (fact k))). reflexivity. Qed.
 
 (* ---- defaults *)
 Theorem C03_ls_default : forall r, compute_ls r = exp 3 * exp (mean_list (map ln r)).
